@@ -377,12 +377,15 @@ type runOut struct {
 
 var logDateLine = regexp.MustCompile(`(?m)^(Date|Start|End)         *: .*$`)
 
+// tmplPrefix: words placed BEFORE the sub-command words of the next runTmpl calls (global options given first).
+var tmplPrefix []string
+
 func runTmpl(c *Ctx, t *cmdTmpl, in *cmdInputs, extra []string, tag string) runOut {
 	outDir := filepath.Join(in.dir, "out-"+tag)
 	_ = os.RemoveAll(outDir)
 	_ = os.MkdirAll(outDir, 0o755)
 	args, _ := t.expand(in, outDir)
-	args = append(args, extra...)
+	args = append(append(append([]string{}, tmplPrefix...), args...), extra...)
 	stdin := ""
 	if t.Stdin != "" {
 		stdin = in.files[t.Stdin]
